@@ -65,6 +65,33 @@ def table_results(table, roots):
     return out
 
 
+def line_break_test_of_safety_net(prog, rep, R):
+    """The `is there already a line break in the kept whitespace` test of the ignored arm of reconstruct looks for CR as well as LF
+    (a lone CR ends a line comment in the lexer; testing LF only inserted a line ending inside verbatim regions of CR files)."""
+    import text
+    cl = prog.body(text.RCL if hasattr(text, "RCL") else text.RECON + "::{closure#0}")
+    if not rep.check(cl is not None, R, "anchor:reconstruct-closure", "reconstruct closure not found"):
+        return
+    tests = []
+    for c in cl.calls():
+        if (c.callee or "") == "core::str::contains" and "get_leading_whitespace(" in canon(cl, c.args[0]):
+            chars = set()
+            a = c.args[1]
+            if a["k"] == "const":
+                chars.add(a.get("char"))
+            else:
+                for d in cl.defs.get(a["place"]["l"], []):
+                    if d[0] == "assign" and d[3]["k"] == "assign":
+                        rv = d[3]["rv"]
+                        for o in ([rv.get("op")] if rv.get("op") else []) + list(rv.get("ops", [])):
+                            if isinstance(o, dict) and o.get("k") == "const" and "char" in o:
+                                chars.add(o["char"])
+            tests.append((c, chars))
+    rep.check(len(tests) == 1 and {10, 13} <= tests[0][1], R, "safety-net-tests-CR-and-LF",
+              "the ignored arm decides `the kept whitespace already has a line break` by looking for %s (expected both LF and CR)" % [sorted(t[1]) for t in tests],
+              where=tests[0][0].where() if tests else None, instance={"pattern": sorted(tests[0][1]) if tests else []})
+
+
 def check_c02(prog, rep, tier, cfg):
     # ---------------------------------------------------------------- C02.a hard-break decision table
     R = "C02.a"
@@ -329,6 +356,7 @@ def check_c02(prog, rep, tier, cfg):
             tv = parse_cov.variant_truth(prog, LANG + "CommentKind::is_singleline")
             rep.check(tv is not None and tv.get("InlineLine") is True and tv.get("IndividualLine") is True and sum(1 for v in tv.values() if v) == 2, R, "is_singleline={IndividualLine,InlineLine}",
                       "CommentKind::is_singleline is true for %s" % sorted(k for k, v in (tv or {}).items() if v), instance={"true_for": sorted(k for k, v in (tv or {}).items() if v)})
+    line_break_test_of_safety_net(prog, rep, "C02.e")
     # ---------------------------------------------------------------- C02.g separating spaces survive until all wrapping is done
     import layout
     layout.zeroing_after_wrapping(prog, rep, "C02.g")
